@@ -209,8 +209,10 @@ MAX_M = {2: 7, 3: 4, 4: 3, 5: 2}      # size coupling m = min(N, dkmax+1)
 @st.composite
 def tempo_shape(draw, d, tier="quick", n_min=1, n_max=None, allow_none=True, min_dkmax=1):
     """(N, dkmax, add_correlation_time) respecting the size coupling of DESIGN section 4"""
-    mmax = MAX_M[d] + (1 if tier == "thorough" else 0)
-    n_cap = n_max or (8 if tier == "quick" else 16)
+    # the size coupling is the same in both tiers (one more memory step costs 30..280 s per case, DESIGN section 4);
+    # the thorough tier differs by its budgets and by longer runs at short memory
+    mmax = MAX_M[d]
+    n_cap = n_max or (8 if tier == "quick" else 12)
     N = draw(st.integers(n_min, n_cap))
     choices = []
     if allow_none and N <= mmax:
